@@ -35,6 +35,8 @@ type Engine struct {
 	repoDir       string
 	mirrorUsed    []string
 	loadErrs      []string
+	privateNext   bool
+	noLoopFrame   bool
 }
 
 func (e *Engine) typeID(t types.Type) *Term {
@@ -79,7 +81,7 @@ func (e *Engine) ghostType(name string) types.Type {
 func ghostSort(g *GhostDecl) string {
 	switch g.Sort {
 	case "wide":
-		return SBV(128)
+		return SInt
 	case "bool":
 		return SBool
 	case "string":
